@@ -189,15 +189,19 @@ def _worker(part, tier, is_canary):
             files = ["morph_minimal.swc", "morph_250.swc"] if tier == "quick" else ["morph_minimal.swc", "morph_250.swc", "morph.swc", "morph_single_point_soma.swc", "morph_250_single_point_soma.swc"]
             for fn in files:
                 path = os.path.join(SWC_DIR, fn)
-                refs = {n: jx.read_swc(path, ncomp=n, max_branch_len=2000.0, assign_groups=True) for n in (1, 2, 3, 4)}
-                nb = refs[1].total_nbranches
+                refs0 = {n: jx.read_swc(path, ncomp=n, max_branch_len=2000.0, assign_groups=True) for n in (1, 2, 3, 4)}
+                # the optional min_radius of set_ncomp must clip like read_swc(min_radius=...) does (seeded change C13_e): a floor
+                # at the median radius of the 4-compartment build clips about half of the new compartments
+                mfloor = float(np.median(refs0[4].nodes["radius"].to_numpy()))
+                refs_m = {n: jx.read_swc(path, ncomp=n, max_branch_len=2000.0, assign_groups=True, min_radius=mfloor) for n in (1, 2, 3, 4)}
+                nb = refs0[1].total_nbranches
                 branches = list(range(min(nb, 4))) + ([nb - 1] if nb > 4 else [])
-                for b in branches:
+                for mr, refs, b in [(None, refs0, b) for b in branches] + [(mfloor, refs_m, b) for b in branches]:
                     for n in (2, 3, 4):
                         cell = copy.deepcopy(refs[1])
-                        lab = f"{fn};branch({b}).set_ncomp({n})"
+                        lab = f"{fn};branch({b}).set_ncomp({n}" + (")" if mr is None else f", min_radius={mr:.4g})")
                         try:
-                            cell.branch(b).set_ncomp(n)
+                            cell.branch(b).set_ncomp(n) if mr is None else cell.branch(b).set_ncomp(n, min_radius=mr)
                         except (ValueError, AssertionError) as e:
                             out["refusals"].append(f"{lab}: {type(e).__name__}: {str(e)[:80]}")
                             continue
